@@ -10,7 +10,10 @@
 (* specification states it as a band on the exact success fraction p =     *)
 (* CountValid/|A|^L:  RefuseBelow <= p-threshold <= ProceedAbove (per      *)
 (* mille), inside which either outcome is allowed.  FailRateOne models     *)
-(* MaxFailRate = 1 (never refuse unless p = 0).                            *)
+(* MaxFailRate = 1 (never refuse unless p = 0).  The model uses the wide   *)
+(* band 0.085 .. 0.11; the trace specification (CharTrace!InfoOf) narrows  *)
+(* it to 0.09838 .. 0.09851 around the exact threshold 0.0984468 for       *)
+(* recipes of length <= 2, where the library's float32 error is < 2e-6.    *)
 (***************************************************************************)
 EXTENDS CharSets, TLC
 
